@@ -148,11 +148,13 @@ package simplewlru
 //@   ensures  [lru] llen[c.evictList] <= old(llen[c.evictList]) && forall(i, 0, llen[c.evictList], lel[c.evictList][i] == old(lel[c.evictList][i]))
 //@   ensures  [evict] c.onEvict != nil ==> nEvict == old(nEvict) + old(len(c.items)) - len(c.items)
 //@   ensures  [noevict] c.onEvict == nil ==> nEvict == old(nEvict)
+//@   ensures  [minimal] (llen[c.evictList] < old(llen[c.evictList]) ==> c.weight + now(ent(old(lel[c.evictList])[llen[c.evictList]])).weight > c.maxWeight || llen[c.evictList] + 1 > c.maxSize)
 //@   loop 1 modifies c.items[*], c.weight, lel[c.evictList], llen[c.evictList], lidx[*], lown[*], nEvict, gEvictKey, gEvictVal
 //@   loop 1 invariant cinv(c)
 //@   loop 1 invariant forall(k interface{}, lhas(c, k) ==> old(lhas(c, k)) && c.items[k] == old(c.items[k]))
 //@   loop 1 invariant llen[c.evictList] <= old(llen[c.evictList]) && forall(i, 0, llen[c.evictList], lel[c.evictList][i] == old(lel[c.evictList][i]))
 //@   loop 1 invariant (c.onEvict != nil ==> nEvict == old(nEvict) + old(len(c.items)) - len(c.items)) && (c.onEvict == nil ==> nEvict == old(nEvict))
+//@   loop 1 invariant (llen[c.evictList] < old(llen[c.evictList]) ==> c.weight + now(ent(old(lel[c.evictList])[llen[c.evictList]])).weight > c.maxWeight || llen[c.evictList] + 1 > c.maxSize)
 //@
 //@ func (*Cache).Resize
 //@   requires cinv(c)
